@@ -23,7 +23,7 @@ def gen(tier, seed):
     cases = []
     for kind in ('R2', 'R3', 'SE2', 'SE3'):
         for n_poses in (2, 3, 4):
-            for _ in range(12 if thorough else 3):
+            for _ in range(30 if thorough else 3):
                 c = GC.gen_graph(rnd, kind, n_poses, rnd.choice([1, 2]), 0, custom=True, fixed_mode='first', fix_first=True, parallel_p=0.0)
                 if rnd.random() < 0.3:      # large translations: the truncation error of the forward difference grows with the scale
                     sh = rnd.choice([(1000, -2000, 500), (-4000, 100, 3000)])[:B.DIM[kind]]
